@@ -40,6 +40,9 @@ FNS = [
     dict(file="src/rtte.rs", fn="sample", assign="*srtt", lean="srttUpdate",
          params=[("srtt", "Duration"), ("new_rtt", "Duration")]),
     dict(file="src/mtu.rs", fn="next_probe", lean="nextProbe"),
+    dict(file="src/mtu.rs", fn="on_probe_failed", assign="self.max_ss", lean="probeFailedMaxSs", params=[("size", "usize")]),
+    dict(file="src/mtu.rs", fn="on_payload_delivered", assign="self.min_ss", lean="deliveredMinSs", params=[("payload_size", "usize")], lets=True),
+    dict(file="src/mtu.rs", fn="on_payload_delivered", assign="self.max_ss", lean="deliveredMaxSs", params=[]),
     dict(file="src/stream_dispatch.rs", fn="rx_window", lean="rxWindow"),
     dict(file="src/stream_dispatch.rs", fn="immediate_ack_to_transmit", lean="immediateAckToTransmit"),
 ]
@@ -426,7 +429,9 @@ def translate(cfg):
         params = ", ".join(f"{n}: {t}" for n, t in cfg["params"])
         ret = "Duration"
         line += code.count("\n", 0, ms[0].start())
-        body = "{ " + ms[0].group(1) + " }"
+        # `let` statements that precede the assignment stay in scope
+        lets = " ".join(m.group(0) for m in re.finditer(r"\blet\s[^;]*;", code[:ms[0].start()])) if cfg.get("lets") else ""
+        body = "{ " + lets + " " + ms[0].group(1) + " }"
     env, lparams = {}, []
     for p in [x.strip() for x in params.split(",") if x.strip()]:
         if p in ("&self", "&mut self", "self"):
